@@ -3,8 +3,13 @@ use std::path::{Path, PathBuf};
 use std::process::{Command, Output, Stdio};
 use std::sync::atomic::{AtomicU64, Ordering};
 
-pub const MLAR: &str = "/verif/target/repo/debug/mlar";
-pub const LIBMLA: &str = "/verif/target/repo/debug/libmla.so";
+/// binaries built from the tree by `./check` (overridable for trials on a copy of the repository)
+pub fn mlar_path() -> String {
+    std::env::var("VERIF_MLAR").unwrap_or_else(|_| "/verif/target/repo/debug/mlar".to_string())
+}
+pub fn libmla_path() -> String {
+    std::env::var("VERIF_LIBMLA").unwrap_or_else(|_| "/verif/target/repo/debug/libmla.so".to_string())
+}
 
 static COUNTER: AtomicU64 = AtomicU64::new(0);
 
@@ -35,11 +40,11 @@ pub fn cleanup_process_dir() {
 }
 
 pub fn mlar(args: &[&std::ffi::OsStr], cwd: &Path) -> std::io::Result<Output> {
-    Command::new(MLAR).args(args).current_dir(cwd).stdin(Stdio::null()).output()
+    Command::new(mlar_path()).args(args).current_dir(cwd).stdin(Stdio::null()).output()
 }
 
 pub fn mlar_s(args: &[&str], cwd: &Path) -> std::io::Result<Output> {
-    Command::new(MLAR).args(args).current_dir(cwd).stdin(Stdio::null()).output()
+    Command::new(mlar_path()).args(args).current_dir(cwd).stdin(Stdio::null()).output()
 }
 
 pub fn describe(o: &Output) -> String {
